@@ -718,6 +718,8 @@ impl Ctx {
                     catch(|| f(&v, &mut tmp))
                 } else {
                     let mut l = loc.borrow_mut();
+                    // every check contributes at least its first generated cases to the evidence samples
+                    l.sample(&format!("generated:{}", check), || serde_json::to_value(&v).unwrap_or(Value::Null));
                     catch(|| f(&v, &mut l))
                 };
                 let r = match r {
